@@ -12,6 +12,9 @@ import (
 
 	"github.com/cgi-fr/jsonline/pkg/cast"
 	"github.com/cgi-fr/jsonline/pkg/jsonline"
+	"context"
+	"net"
+	"syscall"
 )
 
 // rng is splitmix64: every random choice of a run derives from VERIF_SEED through it.
@@ -60,6 +63,8 @@ func classify(err error) string {
 	switch {
 	case err == nil:
 		return "-"
+	case errors.Is(err, errInjected):
+		return "io"
 	case errors.Is(err, jsonline.ErrUnsupportedImportType):
 		return "unsupported-import"
 	case errors.Is(err, jsonline.ErrUnsupportedExportType):
@@ -76,13 +81,35 @@ func classify(err error) string {
 		return "marshal"
 	case errors.As(err, &syn), errors.Is(err, io.ErrUnexpectedEOF), errors.Is(err, io.EOF):
 		return "syntax"
-	case errors.Is(err, errInjected):
-		return "io"
 	}
 	return "other"
 }
 
 var errInjected = errors.New("injected I/O fault")
+
+// faultErr is an injected I/O fault that is ALSO one of the errors real readers and writers answer with (a closed
+// file, pipe or connection, a broken pipe, a reset connection, a cancelled context, a deadline, an unexpected end):
+// errors.Is finds both. Whatever its kind, a failed read or write is a failure to report.
+type faultErr struct{ also error }
+
+func (e faultErr) Error() string { return "injected I/O fault: " + e.also.Error() }
+func (e faultErr) Is(t error) bool {
+	return t == errInjected || errors.Is(e.also, t)
+}
+
+var faultKinds = []error{nil, os.ErrClosed, io.ErrClosedPipe, net.ErrClosed, syscall.EPIPE, syscall.ECONNRESET, context.Canceled, os.ErrDeadlineExceeded, io.ErrUnexpectedEOF, nil}
+var faultCount int
+
+// nextFault: the error the next faulty reader or writer will answer with — the plain injected fault, or one that
+// also is a well-known error of the standard library, in turn.
+func nextFault() error {
+	faultCount++
+	k := faultKinds[faultCount%len(faultKinds)]
+	if k == nil {
+		return errInjected
+	}
+	return faultErr{also: k}
+}
 
 // caseWriter writes protocol lines and keeps the statistics the evidence reports.
 type caseWriter struct {
